@@ -144,3 +144,99 @@ Example nv_same_message_twice :
   ignored s0 (1%Z, 3) = false /\
   exists st s' lg, run 80 w0 s0 (TAct (Delay [Broadcast 1 3; Broadcast 1 3])) = Some (st, s', lg) /\ length (top 0 lg) = 4.
 Proof. split; [vm_compute; reflexivity|]. eexists _, _, _. split; [vm_compute; reflexivity|reflexivity]. Qed.
+
+(* ---------- the translated hub (gen/Gen_hub.v): sanity runs and non-vacuity of the gen_* theorems ---------- *)
+From GV Require Import gen.Gen_hub C07.GenEquiv C07.GenLemmas.
+
+Definition glogof (r : option Model.gres) : list event :=
+  match r with Some (_, _, lg) => lg | None => [] end.
+Definition ghubof (r : option Model.gres) : Model.ghub :=
+  match r with Some (_, g, _) => g | None => gempty end.
+
+(* the translated hub after the same set-up: it represents s0 *)
+Definition g0 : Model.ghub := ghubof (grun 50 w0 gempty (GScript setup)).
+
+Example g0_represents_s0 : R g0 s0.
+Proof.
+  pose proof (GenLemmas.gen_refines 50 w0 empty_hub gempty (TScript setup) GenLemmas.gen_start) as H.
+  unfold g0, s0. simpl emb_task in H.
+  destruct (run 50 w0 empty_hub (TScript setup)) as [[[st s] l]|] eqn:E1;
+    destruct (grun 50 w0 gempty (GScript setup)) as [[[gst g] gl]|] eqn:E2; try contradiction.
+  - exact (proj2 (proj2 H)).
+  - vm_compute in E1. discriminate E1.
+Qed.
+
+Example g0_table : g_subscriptions g0 =
+  [(0, [(0, ((0, 0), 0%Z, 10%Z))]);
+   (1, [(1, ((1, 2), 0%Z, 20%Z)); (3, ((1, 0), 0%Z, 5%Z))]);
+   (2, [(2, ((2, 1), 2%Z, 20%Z))])].
+Proof. vm_compute. reflexivity. Qed.
+
+(* the translated _find_handlers on the examples above: (listener, handler object) with the handler object = (listener, script) *)
+Example gen_find_example :
+  hub_find_handlers (gops w0) g0 (4%Z, 2) = Some [(1, (1, 2)); (2, (2, 1)); (0, (0, 0))].
+Proof. vm_compute. reflexivity. Qed.
+Example gen_find_example_odd :
+  hub_find_handlers (gops w0) g0 (5%Z, 2) = Some [(1, (1, 2)); (0, (0, 0))].
+Proof. vm_compute. reflexivity. Qed.
+
+(* nested delay blocks through the translated delay_callbacks / broadcast: the same log as the model *)
+Example gen_nested_delay :
+  glogof (grun 50 w0 g0 (GScript [Delay [Broadcast 1 3; Delay [Broadcast 2 3]; Broadcast 3 3]])) =
+  logof (run 50 w0 s0 (TScript [Delay [Broadcast 1 3; Delay [Broadcast 2 3]; Broadcast 3 3]])).
+Proof. vm_compute. reflexivity. Qed.
+
+Example gen_delay_in_handler_during_flush :
+  glogof (grun 80 w0 g0 (GScript [Delay [Broadcast 1 1; Broadcast 2 1]])) =
+  logof (run 80 w0 s0 (TScript [Delay [Broadcast 1 1; Broadcast 2 1]])) /\
+  glogof (grun 80 w0 g0 (GScript [Delay [Broadcast 1 1; Broadcast 2 1]])) <> [].
+Proof. vm_compute. split; [reflexivity|discriminate]. Qed.
+
+(* an ignore block inside a delay block, a raise inside a delay block: status 1 = GRaised, the queue is flushed, counts back to 0 *)
+Example gen_raise_in_delay :
+  match grun 50 w0 g0 (GScript [Delay [Ignore 3 [Broadcast 1 3]; Broadcast 2 3; Raise]]) with
+  | Some (st, g, lg) => st = GRaised /\ g_paused g = 0%Z /\ g_queue g = [] /\ ctr_getitem 3 (g_ignore g) = 0%Z /\
+                        top 0 lg = [((0, 0), (2%Z, 3)); ((1, 0), (2%Z, 3))]
+  | None => False
+  end.
+Proof. vm_compute. repeat split; reflexivity. Qed.
+
+(* hypotheses of gen_open_block_only_queues / gen_delay_holds_everything / gen_per_listener_order / gen_deliver_once_right_listeners are met by g0 *)
+Example nv_gen_delay_holds :
+  R g0 s0 /\ handlers_rf w0 /\ wf_subs (subs s0) /\ g_paused g0 = 0%Z /\ g_queue g0 = [] /\
+  exists r, grun 80 w0 g0 (GAct (Delay [Broadcast 1 1; Delay [Broadcast 2 3]])) = Some r.
+Proof.
+  split; [exact g0_represents_s0|]. split; [exact w0_rf|]. split; [exact (proj1 s0_wf)|].
+  split; [vm_compute; reflexivity|]. split; [vm_compute; reflexivity|].
+  vm_compute. eexists. reflexivity.
+Qed.
+
+Example nv_gen_open_block :
+  let g1 := gset_paused g0 2%Z in
+  R g1 (set_paused s0 2) /\ g_paused g1 <> 0%Z /\
+  exists g', grun 50 w0 g1 (GScript [Broadcast 1 3; Delay [Broadcast 2 3]; Ignore 3 [Broadcast 3 3]]) = Some (GNormal, g', [EOpen; EEnd; EClose]) /\
+             g_queue g' = [(1%Z, 3); (2%Z, 3)].
+Proof.
+  simpl. split; [|split; [discriminate|]].
+  - destruct g0_represents_s0 as (H1 & H2 & H3 & H4). repeat split; assumption.
+  - vm_compute. eexists. split; reflexivity.
+Qed.
+
+Example nv_gen_deliver_once :
+  (ctr_getitem (py_type (4%Z, 2%nat)) (g_ignore g0) <= 0)%Z /\
+  exists g', grun 50 w0 g0 (GBcast (4%Z, 2)) = Some (GNormal, g', glogof (grun 50 w0 g0 (GBcast (4%Z, 2)))) /\
+             top 0 (glogof (grun 50 w0 g0 (GBcast (4%Z, 2)))) = to_calls (4%Z, 2) [(1, 2); (2, 1); (0, 0)].
+Proof. vm_compute. split; [discriminate|]. eexists. split; reflexivity. Qed.
+
+(* the direct facts about the translated methods are used with non-trivial callbacks by gstep; here with constant ones *)
+Example nv_gen_inner_exit :
+  let r := grecs w0 (fun _ _ => None) in
+  hub_delay_callbacks (gops w0) r (fun g => Some (GRaised, g, [EEnd])) (gset_paused g0 1%Z) =
+  Some (GRaised, gset_paused g0 1%Z, [EEnd]).
+Proof. vm_compute. reflexivity. Qed.
+
+(* the real message classes: DataMessage (7) is a parent of ComponentsChangedMessage (14), parent of ComponentReplacedMessage (15) *)
+Example real_class_tree :
+  length msg_parents = 32 /\ tree_issub msg_parents 15 7 = true /\ tree_issub msg_parents 15 3 = false /\
+  nth 15 msg_mro_counts 0%Z = 5%Z.
+Proof. vm_compute. repeat split; reflexivity. Qed.
